@@ -6,6 +6,7 @@
 
 #include "nmtools/utility/shape.hpp"
 #include "nmtools/array/index/compute_indices.hpp"
+#include "nmtools/array/index/normalize_axis.hpp"
 #include "nmtools/array/index/where.hpp"
 #include "nmtools/array/index/cumsum.hpp"
 #include "nmtools/array/index/product.hpp"
@@ -196,8 +197,10 @@ namespace nmtools::index
      * @return constexpr auto 
      */
     template <typename shape_t, typename indices_t, typename repeats_t, typename axis_t>
-    constexpr auto repeat(const shape_t& shape, const indices_t& indices, const repeats_t& repeats, [[maybe_unused]] axis_t axis)
+    constexpr auto repeat(const shape_t& shape, const indices_t& indices, const repeats_t& repeats, [[maybe_unused]] axis_t axis_)
     {
+        // a negative axis counts from the last axis (numpy); None is passed through
+        [[maybe_unused]] const auto axis = wrap_axis(axis_, len(shape));
         using return_t = meta::resolve_optype_t<repeat_t,shape_t,indices_t,repeats_t,axis_t>;
         static_assert (meta::is_index_array_v<return_t>
             , "unsupported index::repeat, could not deduce return type" );
